@@ -127,6 +127,7 @@ type (
 		SignedAccumulator *SignedAccumulator
 		Events            []*Event
 		product           *big.Int
+		productFrom       uint64 // index of the first event included in product
 	}
 
 	// Hash represents a SHA256 hash and has marshaling methods to/from JSON.
@@ -308,10 +309,11 @@ func (update *Update) Verify(pk *gabikeys.PublicKey) (*Accumulator, error) {
 }
 
 func (update *Update) Product(from uint64) *big.Int {
-	if update.product != nil {
+	if update.product != nil && update.productFrom == from {
 		return update.product
 	}
 	update.product = big.NewInt(1)
+	update.productFrom = from
 	if len(update.Events) == 0 {
 		return update.product
 	}
